@@ -140,7 +140,7 @@ Definition from_field_type (puf : bool) (dt : dtype) (len : N) : parser fval :=
     | DProto =>
         match u_s 1 i with
         | Err e => Err e
-        | Ok b r => match proto_parse b with Some d => Ok (VProto d) r | None => Err EError end
+        | Ok b r => Ok (VProto (proto_decode b)) r
         end
     | DFloat64 => pmap VF64 (u_s 8) i
     | DVec => pmap VVec (take_c len) i
